@@ -7,7 +7,8 @@
 (* shape unit (repeated N times) and the levels it opens:                  *)
 (*   "arr" [ (1)   "obj" {"k": (1)   "mixed" [{"k": (2)   "pad" space[ (1) *)
 (*   "arrnf" [0, (1)   "objnf" {"a":0,"k": (1): every container is a      *)
-(*   NON-first element / member of its parent                              *)
+(*   NON-first element / member of its parent; "objsp" {"k":space (1)      *)
+(*   "warm": short documents were detected first in the same process       *)
 (* closed: the matching closers (after a scalar) follow the N units.       *)
 (* The closed form below is what JsonScan establishes for small caps       *)
 (* (MC_JsonNest: LvlBound, RejectedBeyondCap, C08Whole, C08Trunc) instantiated with the  *)
@@ -18,7 +19,7 @@ EXTENDS Integers, Sequences, TLC, Json, IOUtils
 RealCap == 4096
 Trace == ndJsonDeserialize(IOEnv.TRACE)
 VARIABLE l
-UnitLen(s) == CASE s = "arr" -> 1 [] s = "obj" -> 5 [] s = "mixed" -> 6 [] s = "pad" -> 2 [] s = "arrc" -> 1 [] s = "arrnf" -> 3 [] s = "objnf" -> 12
+UnitLen(s) == CASE s = "arr" -> 1 [] s = "obj" -> 5 [] s = "mixed" -> 6 [] s = "pad" -> 2 [] s = "arrc" -> 1 [] s = "arrnf" -> 3 [] s = "objnf" -> 12 [] s = "objsp" -> 6
 UnitLvl(s) == CASE s = "mixed" -> 2 [] OTHER -> 1
 Min(a, b) == IF a < b THEN a ELSE b
 
